@@ -59,7 +59,7 @@ def _any_ctc(draw, names, feats):
 ANY = S.Profile(S.ident_or_dict_names(), single=("mandatory", "optional", "card1"),
                 group=("alternative", "or", "mutex", "card"), layout="free",
                 ftypes=("BOOLEAN", "BOOLEAN", "INTEGER", "REAL", "STRING"), fcards=True,
-                ctc_max=5, ctc_expr=_any_ctc)
+                ctc_max=5, ctc_expr=_any_ctc, wide=True, simple_ops=logic.LOGICAL)
 
 
 @st.composite
